@@ -97,6 +97,8 @@ def CSys.closedNow (s : CSys) : Bool := s.sys.chanClosed && s.pending.isEmpty
 /-- Everything is over: the loop has ended, every item has been sent and received. -/
 def CSys.finished (s : CSys) : Prop := s.sys.pc = .done ∧ s.pending = [] ∧ s.chan = []
 
+instance (s : CSys) : Decidable s.finished := by unfold CSys.finished; infer_instance
+
 /-- The main goroutine's script for a finite input: per rune `select → default`, the read returns
     it; then one more `select → default` and the read returns `io.EOF`. -/
 def script : List Nat → List Label
